@@ -362,3 +362,11 @@ brk('C17', 'svg_to_paths.py', "    return svg2paths(svg_file_location=svg_file_l
 ben('C17', 'svg_to_paths.py', "    return svg2paths(svg_file_location=svg_file_obj,\n                     return_svg_attributes=return_svg_attributes,\n                     convert_circles_to_paths=convert_circles_to_paths,\n                     convert_ellipses_to_paths=convert_ellipses_to_paths,\n                     convert_lines_to_paths=convert_lines_to_paths,\n                     convert_polylines_to_paths=convert_polylines_to_paths,\n                     convert_polygons_to_paths=convert_polygons_to_paths,\n                     convert_rectangles_to_paths=convert_rectangles_to_paths)",
     "    return svg2paths(svg_file_obj, return_svg_attributes, convert_circles_to_paths, convert_ellipses_to_paths,\n                     convert_lines_to_paths, convert_polylines_to_paths, convert_polygons_to_paths,\n                     convert_rectangles_to_paths)",
     'svgstr2paths forwards its options positionally in the right order')
+brk('C18', 'document.py', "        return parseString(repr(self)).toprettyxml(**kwargs)",
+    "        import re\n        text = repr(self)\n        text = re.sub(r'[ \\t]+', ' ', text)\n        return parseString(text).toprettyxml(**kwargs)",
+    'pretty() collapses runs of blanks in the serialised XML, also inside attribute values (through a local)')
+brk('C18', 'document.py', "                output_svg.write(repr(self))", "                output_svg.write(repr(self).replace(', ', ','))",
+    'save() rewrites ", " in the serialised XML (style / d values contain it)')
+ben('C18', 'document.py', "        return parseString(repr(self)).toprettyxml(**kwargs)",
+    "        import re\n        return parseString(re.sub(r'>\\s+<', '><', repr(self))).toprettyxml(**kwargs)",
+    'pretty() drops white space between tags only (cannot match inside an attribute value: < is escaped there)')
